@@ -85,6 +85,10 @@ def check(prop, tier, replay=None):
     # cost must stay proportional to the size of the project: many scenarios over inherited limits
     for pid, p in gen.many_scenarios(rng, 6 if tier == "quick" else 60):
         jobs.append({"id": "C11-" + pid, "text": p.render(), "scenarios": [0]})
+    # feasible projects that mix the two directions (a forward project with deliveries anchored at their deadlines; some
+    # predecessors of an anchor also feed forward work): giving up is for loops, not for these
+    for pid, p in gen.jit(rng, 15 if tier == "quick" else 300):
+        jobs.append({"id": "C11-" + pid, "text": p.render(), "scenarios": [0]})
     for pid, p in gen.wide_groups(rng, 4 if tier == "quick" else 40):
         jobs.append({"id": "C11-" + pid, "text": p.render(), "scenarios": [0]})
     # one statement kind written k and 2k times in one property: the cost of the larger project is bounded by the smaller one's
